@@ -411,3 +411,140 @@ func TestC11_Replay(t *testing.T) {
 	}
 	_ = os.Stdout.Sync()
 }
+
+// ---------------------------------------------------------------------------------------------
+// layer 2: cluster cases
+
+func k11GenCluster(t *rapid.T) *k11Case {
+	c := &k11Case{Kind: "cluster", Conc: 2, FastKeys: 64, AofBuf: 4096}
+	c.Clients = rapid.IntRange(1, 2).Draw(t, "clients")
+	c.Followers = rapid.SampledFrom([]int{1, 1, 2}).Draw(t, "followers")
+	c.AckMode = rapid.SampledFrom([]int{1, 2, 2}).Draw(t, "ackmode")
+	g := &k11GenState{ids: map[int][]int{}, ackIds: map[int][]int{}}
+	key := 0
+	stalled := make([]bool, c.Followers)
+	parts := rapid.IntRange(1, 3).Draw(t, "parts")
+	demoted := false
+	for p := 0; p < parts && !demoted; p++ {
+		// optional prelude: a value on the key / an acknowledged hold without faults
+		if rapid.IntRange(0, 2).Draw(t, "prelude") == 0 {
+			op := k11Op{K: "lock", Key: key, Id: g.fresh(key, false), E: 40, Cnt: 2, V: k11GenVal(t)}
+			c.Ops = append(c.Ops, op)
+			if rapid.Bool().Draw(t, "preUnlock") {
+				c.Ops = append(c.Ops, k11Op{K: "unlock", Key: key, Id: op.Id})
+			}
+		}
+		if rapid.IntRange(0, 3).Draw(t, "plainAck") == 0 {
+			op := k11Op{K: "lock", Ack: true, Key: key, Id: g.fresh(key, true), T: 5, E: 40, Cnt: 2}
+			if rapid.Bool().Draw(t, "paV") {
+				op.V = k11GenVal(t)
+			}
+			c.Ops = append(c.Ops, op)
+			if rapid.Bool().Draw(t, "paUnlock") {
+				c.Ops = append(c.Ops, k11Op{K: "unlock", Key: key, Id: op.Id})
+			}
+		}
+		fromQueue := rapid.IntRange(0, 2).Draw(t, "fromQueue") == 0
+		blocker := -1
+		if fromQueue {
+			blocker = g.fresh(key, false)
+			c.Ops = append(c.Ops, k11Op{K: "lock", Key: key, Id: blocker, E: 40, Cnt: 0})
+		}
+		// stall some followers
+		nst := 0
+		for f := 0; f < c.Followers; f++ {
+			if !stalled[f] && rapid.IntRange(0, 3).Draw(t, "stall") > 0 {
+				c.Ops = append(c.Ops, k11Op{K: "stall", F: f})
+				stalled[f] = true
+			}
+			if stalled[f] {
+				nst++
+			}
+		}
+		ack := k11Op{K: "lock", Ack: true, Key: key, Id: g.fresh(key, true), C: 1}
+		ack.T = rapid.SampledFrom([]int{2, 4, 10, 10}).Draw(t, "ackT")
+		ack.E = rapid.IntRange(30, 60).Draw(t, "ackE")
+		ack.Cnt = rapid.SampledFrom([]int{0, 0, 1, 2}).Draw(t, "ackCnt")
+		if rapid.IntRange(0, 9).Draw(t, "ackHasV") < 8 {
+			ack.V = k11GenVal(t)
+		}
+		c.Ops = append(c.Ops, ack)
+		if fromQueue {
+			c.Ops = append(c.Ops, k11Op{K: "unlock", Key: key, Id: blocker})
+		}
+		for i := rapid.IntRange(0, 2).Draw(t, "waiters"); i > 0; i-- {
+			w := k11Op{K: "lock", Key: key, C: 2, T: rapid.SampledFrom([]int{5, 12}).Draw(t, "wT"), E: rapid.IntRange(30, 60).Draw(t, "wE")}
+			w.Ack = rapid.IntRange(0, 2).Draw(t, "wAck") == 0
+			w.Id = g.fresh(key, w.Ack)
+			w.Cnt = rapid.SampledFrom([]int{0, 0, 1, 2}).Draw(t, "wCnt")
+			if rapid.IntRange(0, 2).Draw(t, "wHasV") == 0 {
+				w.V = k11GenVal(t)
+			}
+			c.Ops = append(c.Ops, w)
+		}
+		for i := rapid.IntRange(0, 2).Draw(t, "competing"); i > 0; i-- {
+			if rapid.Bool().Draw(t, "competeUnlock") {
+				c.Ops = append(c.Ops, k11Op{K: "unlock", Key: key, Id: ack.Id})
+			} else {
+				c.Ops = append(c.Ops, k11Op{K: "lock", Key: key, Id: ack.Id, Ack: rapid.Bool().Draw(t, "cAck"), T: 0, E: 30})
+			}
+		}
+		switch rapid.IntRange(0, 6).Draw(t, "ending") {
+		case 0:
+			c.Ops = append(c.Ops, k11Op{K: "demote"})
+			demoted = true
+		case 1:
+			c.Ops = append(c.Ops, k11Op{K: "tick", N: ack.T + rapid.IntRange(1, 2).Draw(t, "over")})
+		case 2:
+			c.Ops = append(c.Ops, k11Op{K: "tick", N: 1})
+		}
+		for f := 0; f < c.Followers; f++ {
+			if stalled[f] && rapid.IntRange(0, 4).Draw(t, "unstall") > 0 {
+				c.Ops = append(c.Ops, k11Op{K: "unstall", F: f, Mode: rapid.SampledFrom([]string{"pass", "pass", "negate", "negate", "drop"}).Draw(t, "mode")})
+				stalled[f] = false
+			}
+		}
+		if rapid.Bool().Draw(t, "thenUnlock") {
+			c.Ops = append(c.Ops, k11Op{K: "unlock", Key: key, Id: ack.Id})
+		}
+		if rapid.IntRange(0, 3).Draw(t, "tail") == 0 {
+			c.Ops = append(c.Ops, k11GenOps(t, g, 1, rapid.IntRange(1, 5).Draw(t, "ntail"), true)...)
+		}
+	}
+	return c
+}
+
+func k11ClusterNontrivial(in k11Info) bool { return in.decidedByFollower > 0 }
+
+func TestC11_Cluster(t *testing.T) {
+	st := vstat("TestC11_Cluster")
+	rapid.Check(t, func(t *rapid.T) {
+		c := k11GenCluster(t)
+		k11Exclusions(c, st)
+		out := k11RunCluster(c, false)
+		if out.inconclusive != "" {
+			k11Inconclusive(out.inconclusive + "\n" + out.history)
+		}
+		for i := 0; i < out.info.knownLateReply; i++ {
+			st.KnownHit(k11KeyLateReply)
+		}
+		for i := 0; i < out.info.excludedRollback; i++ {
+			st.Exclude("value operation whose roll-back is inexact in the current state replaced by SET (known finding " + k11KeyRollback + ")")
+		}
+		st.Case(k11ClusterNontrivial(out.info), c.fingerprint(), k11Classes(out.info), func() interface{} { return c })
+		if os.Getenv("VERIF_K11_SURVEY") != "" {
+			for _, v := range out.viols {
+				st.Class("SURVEY "+v.Key+" "+v.Sig, 1)
+				fn := os.Getenv("VERIF_K11_SURVEY") + "/cl_" + strings.NewReplacer(":", "_", " ", "_", "=", "-").Replace(v.Key+"_"+v.Sig) + ".json"
+				if fi, err := os.Stat(fn); err != nil || fi.Size() > int64(len(out.history)+len(c.Ops)*80) {
+					b, _ := json.Marshal(map[string]interface{}{"key": v.Key, "message": v.Msg, "case": c})
+					_ = os.WriteFile(fn, append(b, []byte("\n"+v.Msg+"\n"+out.history+"\n")...), 0644)
+				}
+			}
+			return
+		}
+		if err := out.err(); err != nil {
+			vFail(t, "TestC11_Cluster", k11FirstKey(&out), c, "%v", err)
+		}
+	})
+}
